@@ -406,8 +406,9 @@ ADDENDA2 = {
             "diffusion coefficient and the truncated measure's integrals are translated from /repo's source on every run; proved on the translation: "
             "mu_h = sum of x_k times the mass of the C01 cell of x_k for every axis and origin, drift + sum x_k q_k = the mean rate of the truncated "
             "process in the declared representation, squared equivalent coefficient = sigma^2 (+ central-cell variance for infinite variation). "
-            "User-defined models on the public abstract classes (Brownian part together with infinite-variation jumps, sums of measures).",
-            "", " + source-derived definitions (PyLite translator) re-proved on every run"),
+            "User-defined models on the public abstract classes (Brownian part together with infinite-variation jumps, sums of measures); "
+            "one-sided hand-built grids.",
+            " One further defect repaired in /repo (7f10060: origin at the last point of a one-sided grid); two recorded findings on one-sided grids.", " + source-derived definitions (PyLite translator) re-proved on every run"),
     "C06": (" Source-derived tie: compute_mc_paths_giles and criteria_giles are translated from /repo's source on every run (vectors as lists, sqrt "
             "and 2**x as function parameters with stated laws); proved on the translation: sum V_l / N_l <= (1 - theta) rmse^2 and N_l >= 1 for "
             "all positive variances and costs of any length, a True verdict implies squared extrapolated bias <= theta rmse^2, both read the same "
